@@ -302,9 +302,13 @@ func runC11(c *Ctx) error {
 		check("webhook(healthy target listed after a failing one)", func() []string { return hook.postsTo("http://hook.invalid/b/ok") })
 		check("webhook(healthy target listed after a DEACTIVATED one)", func() []string { return hook2.postsTo("http://hook.invalid/b/ok") })
 		check("webhook(second healthy target after a deactivated one)", func() []string { return hook2.postsTo("http://hook.invalid/c/ok") })
-		if n := len(hook2.postsTo("http://hook.invalid/dead")); len(expected) >= 2 && n != 2 {
-			fail(fmt.Sprintf("the failing webhook with max_tries=2 was called %d times", n), "2", fmt.Sprint(n), "c11-events:webhook-deactivation")
+		// (how often the failing webhook is called before it is deactivated is C12's subject and depends on how far the
+		// per-event deliveries overlap — each delivery goroutine reads the counter for itself; here it only has to have been
+		// called at least max_tries times, so that the webhooks listed after it were exercised behind a deactivated one)
+		if n := len(hook2.postsTo("http://hook.invalid/dead")); len(expected) >= 2 && n < 2 {
+			fail(fmt.Sprintf("the failing webhook with max_tries=2 was called %d times", n), "at least 2", fmt.Sprint(n), "c11-events:webhook-deactivation")
 		}
+		c.R.Count("calls of the failing webhook (max_tries=2) before deactivation", len(hook2.postsTo("http://hook.invalid/dead")))
 		st2.Close()
 		if prod != nil {
 			prod.name, prod.ops, prod.want, prod.started = name+" (production webhook client)", append([]string{}, ops...), append([]string{}, expected...), time.Now()
